@@ -1213,7 +1213,7 @@ def spec_check(chk, c, out, K, sv):
         c2 = {"v": mapped, "args": [a[0], thr] if thr else [a[0]], "kind": "factor1" if mapped.split(".")[0] in ("pollard", "factor", "iffactorprime", "primefactor", "lenstra") else "set",
               "fac": f, "klass": kl}
         sub = vf.Check.__new__(vf.Check)
-        sub.failing = []
+        sub.failing, sub.cov, sub.broken = [], chk.cov, chk.broken
         wrong = spec_check(sub, c2, body, K, sv)
         for fi in sub.failing:
             chk.fail_input(site, kl, {"variant": v, "args": [str(x) for x in a]}, fi["expected"], out[:300], fi["detail"])
@@ -1393,8 +1393,6 @@ def spec_check(chk, c, out, K, sv):
         return False
     if kind == "ipp":
         n = a[0]
-        if n == 0:
-            return fail("n=0", 0, "0 is not a prime power") if toks[:1] != ["0"] else False
         e = to_int(toks[0]) if toks else None
         q = to_int(toks[1]) if len(toks) > 1 else None
         if e is None:
@@ -1571,6 +1569,17 @@ def main(tier, replay=None):
         if out.startswith("HANG") or out.startswith("CRASH"):
             hangs += 1
         wrong = spec_check(chk, c, out, K, sv)
+        if c["kind"] == "scripted":
+            sp = chk.cov.setdefault("scripted_paths", {})
+            key = "%s: %s" % (SITE.get(c["v"], c["v"]).replace("IntFactorDom::", ""), c["klass"])
+            sp[key] = sp.get(key, 0) + 1
+            tail = out.partition("|")[2].split()
+            if len(tail) == 2 and tail[1] != "0":
+                chk.cov["scripted_draws_beyond_script"] = chk.cov.get("scripted_draws_beyond_script", 0) + 1
+            if i in mout and "#" in mout[i]:
+                hp = chk.cov.setdefault("resplit_loop_passes_per_iffactorprime_call(model)", {})
+                for t in mout[i].split("#")[1].replace(",", " ").split():
+                    hp[t] = hp.get(t, 0) + 1
         if i in mout:
             ncorr += units
             mi, mm = norm_impl(c, out), norm_model(c, mout[i])
